@@ -10,12 +10,14 @@ import (
 	"sort"
 
 	"github.com/creachadair/mds/stree"
+	"verif/elem"
 	"verif/vk"
 )
 
-// Key is the element type stored in the trees under test.  Only K takes part
-// in the comparison, so which representative of an equivalence class is
-// stored is observable through Tag.
+// Key is the original element type of the trees under test, and the form in
+// which the reference model holds the elements of every other element kind
+// (see TreeCase.Elem).  Only K takes part in the comparison, so which
+// representative of an equivalence class is stored is observable through Tag.
 type Key struct {
 	K   int64
 	Tag int
@@ -60,6 +62,27 @@ type TreeCase struct {
 	Beta int   `json:"beta"`
 	Init []int `json:"init,omitempty"` // base key numbers for New; tags are -(i+1)
 	Ops  []Op  `json:"ops"`
+	// Elem selects the element type the tree is instantiated with: "" is Key;
+	// "int", "string", "wide", "ptr", "any" and "bytes" are the kinds of package
+	// elem.  The reference model stays in Keys (K = value, Tag = identity)
+	// whatever the kind; elements are converted where they enter and leave the
+	// library.
+	Elem string `json:"elem,omitempty"`
+	// Rev negates the value on its way into the element, so that the order the
+	// comparison function defines is the reverse of the element type's natural
+	// order (for the kinds that have one).
+	Rev bool `json:"rev,omitempty"`
+}
+
+// keyKit is the element kit of the original element type, Key.
+func keyKit() elem.Kit[Key] {
+	return elem.Kit[Key]{Kind: "", HasID: true,
+		Make: func(v, id int) Key { return Key{K: int64(v), Tag: id} },
+		V:    func(k Key) int { return int(k.K) },
+		ID:   func(k Key) int { return k.Tag },
+		Same: func(a, b Key) bool { return a == b },
+		Cmp:  func(a, b Key) int { return cmpKey(a, b) },
+	}
 }
 
 // model is the reference sorted set: keys ascending by K.
@@ -105,8 +128,8 @@ func (m *model) max() Key {
 }
 
 // inst is one tree under test with its model and balance bookkeeping.
-type inst struct {
-	t    *stree.Tree[Key]
+type inst[T any] struct {
+	t    *stree.Tree[T]
 	m    *model
 	peak int // P: largest Len since creation, Clear or last empty
 	// for C01's NT rule
@@ -120,20 +143,8 @@ type mode struct {
 	depth bool // check the height bound after every single operation (C02)
 }
 
-// treeRun interprets a TreeCase.
-type treeRun struct {
-	c        TreeCase
-	md       mode
-	o        *vk.Obs
-	insts    []*inst
-	act      int
-	step     int // op index (for tags and messages)
-	sub      int // sub-step inside a macro op
-	tag      int
-	cmps     int    // comparator call counter
-	cheapKey *int64 // see after()
-
-	// measurements
+// treeStats are the measurements of one run (for the NT rule and the classes).
+type treeStats struct {
 	monoRun, drained, twoChild, clones, drainEmpty, pruned int
 	minSlack                                               int
 	delRebuild                                             bool
@@ -141,8 +152,78 @@ type treeRun struct {
 	succUp2                                                bool
 }
 
-func (r *treeRun) compare(a, b Key) int {
+// treeRun interprets a TreeCase on a tree of element type T.
+type treeRun[T any] struct {
+	c        TreeCase
+	kit      elem.Kit[T]
+	md       mode
+	o        *vk.Obs
+	insts    []*inst[T]
+	act      int
+	step     int // op index (for tags and messages)
+	sub      int // sub-step inside a macro op
+	tag      int
+	cmps     int    // comparator call counter
+	cheapKey *int64 // see after()
+
+	treeStats
+}
+
+// mk converts a key of the model into an element for the library.  For the
+// "ptr" and "any" kinds every call allocates a new cell.
+func (r *treeRun[T]) mk(k Key) T {
+	v := int(k.K)
+	if r.c.Rev {
+		v = -v
+	}
+	return r.kit.Make(v, k.Tag)
+}
+
+// isZero reports whether x is the zero value of the element type.
+func (r *treeRun[T]) isZero(x T) bool {
+	var zero T
+	return r.kit.Same(x, zero)
+}
+
+// key converts an element that came out of the library into the model's
+// terms: K is its value and Tag its identity (0 for kinds that carry none).
+// The zero element gives the zero Key.
+func (r *treeRun[T]) key(x T) Key {
+	if r.kit.Kind != "" && r.isZero(x) {
+		return Key{}
+	}
+	v := r.kit.V(x)
+	if r.c.Rev {
+		v = -v
+	}
+	return Key{K: int64(v), Tag: r.kit.ID(x)}
+}
+
+// ref returns the Key the model stores for (k, tag): kinds that cannot carry
+// an identity store tag 0, so which of several equal-valued elements is held
+// is not compared for them.
+func (r *treeRun[T]) ref(k int64, tag int) Key {
+	if !r.kit.HasID {
+		tag = 0
+	}
+	return Key{K: k, Tag: tag}
+}
+
+// val is the value of an element alone (the comparison's view of it).
+func (r *treeRun[T]) val(x T) int64 {
+	if r.kit.Kind != "" && r.isZero(x) {
+		return 0
+	}
+	v := r.kit.V(x)
+	if r.c.Rev {
+		v = -v
+	}
+	return int64(v)
+}
+
+func (r *treeRun[T]) compare(x, y T) int {
 	r.cmps++
+	a, b := Key{K: r.val(x)}, Key{K: r.val(y)}
 	c := cmpKey(a, b)
 	switch r.c.Mag % 3 {
 	case 1:
@@ -166,37 +247,44 @@ func (r *treeRun) compare(a, b Key) int {
 	return c
 }
 
-func (r *treeRun) cur() *inst { return r.insts[r.act] }
+func (r *treeRun[T]) cur() *inst[T] { return r.insts[r.act] }
 
-func (r *treeRun) errf(format string, args ...any) string {
+func (r *treeRun[T]) errf(format string, args ...any) string {
 	op := "init"
 	if r.step >= len(r.c.Ops) {
 		op = "final check"
 	} else if r.step >= 0 {
 		op = fmt.Sprintf("op#%d %+v", r.step, r.c.Ops[r.step])
 	}
-	return fmt.Sprintf("%s (sub-step %d, tree %d, beta %d): %s", op, r.sub, r.act, r.c.Beta, fmt.Sprintf(format, args...))
+	el := ""
+	if r.c.Elem != "" || r.c.Rev {
+		el = fmt.Sprintf(", elem %q rev %v", r.c.Elem, r.c.Rev)
+	}
+	return fmt.Sprintf("%s (sub-step %d, tree %d, beta %d%s): %s", op, r.sub, r.act, r.c.Beta, el, fmt.Sprintf(format, args...))
 }
 
 func baseKey(x int) int64 { return int64(x) << keyShift }
 
-func (r *treeRun) nextTag() int { r.tag++; return r.tag }
+func (r *treeRun[T]) nextTag() int { r.tag++; return r.tag }
 
 // start builds the initial tree.
-func (r *treeRun) start() string {
+func (r *treeRun[T]) start() string {
 	r.step = -1
 	r.minSlack = 1 << 30
 	var keys []Key
 	for i, x := range r.c.Init {
-		keys = append(keys, Key{K: baseKey(x), Tag: -(i + 1)})
+		keys = append(keys, r.ref(baseKey(x), -(i+1)))
 	}
-	var t *stree.Tree[Key]
-	arg := append([]Key(nil), keys...)
+	var t *stree.Tree[T]
+	arg := make([]T, len(keys))
+	for i, k := range keys {
+		arg[i] = r.mk(k)
+	}
 	if pv := vk.PanicValue(func() { t = stree.New(r.c.Beta, r.compare, arg...) }); pv != nil {
 		return r.errf("New(beta=%d, %d keys) panicked: %v", r.c.Beta, len(keys), pv)
 	}
 	for i := range arg { // the caller may reuse its slice: the tree must not depend on it afterwards
-		arg[i] = Key{K: -1 << 50, Tag: -1 << 30}
+		arg[i] = r.mk(Key{K: -1 << 50, Tag: -1 << 30})
 	}
 	// Reference: one representative per K; any of the supplied tags is allowed.
 	allowed := map[int64]map[int]bool{}
@@ -208,7 +296,7 @@ func (r *treeRun) start() string {
 	}
 	m := &model{}
 	var got []Key
-	t.Inorder(func(k Key) bool { got = append(got, k); return true })
+	t.Inorder(func(x T) bool { got = append(got, r.key(x)); return true })
 	if len(got) != len(allowed) {
 		return r.errf("New: tree lists %d keys, want %d distinct", len(got), len(allowed))
 	}
@@ -221,8 +309,8 @@ func (r *treeRun) start() string {
 		}
 		m.ks = append(m.ks, k)
 	}
-	in := &inst{t: t, m: m, peak: len(m.ks), hiWater: len(m.ks), smax: len(m.ks)}
-	r.insts = []*inst{in}
+	in := &inst[T]{t: t, m: m, peak: len(m.ks), hiWater: len(m.ks), smax: len(m.ks)}
+	r.insts = []*inst[T]{in}
 	if msg := r.after(in, true); msg != "" {
 		return msg
 	}
@@ -242,7 +330,7 @@ func (r *treeRun) start() string {
 
 // height measures the height (edges on the longest root-leaf path) through
 // the public cursor API; an empty tree has height -1.
-func height(t *stree.Tree[Key]) int {
+func height[T any](t *stree.Tree[T]) int {
 	c := t.Root()
 	if !c.Valid() {
 		return -1
@@ -258,7 +346,7 @@ func walkGuard(depth, n int) {
 	}
 }
 
-func heightAt(c *stree.Cursor[Key], depth, n int) int {
+func heightAt[T any](c *stree.Cursor[T], depth, n int) int {
 	walkGuard(depth, n)
 	h := 0
 	if c.HasLeft() {
@@ -279,12 +367,12 @@ func heightAt(c *stree.Cursor[Key], depth, n int) int {
 }
 
 // deepestLeaf returns the key of a deepest node and its depth.
-func deepestLeaf(t *stree.Tree[Key]) (Key, int, bool) {
+func deepestLeaf[T any](t *stree.Tree[T]) (T, int, bool) {
 	c := t.Root()
+	var best T
 	if !c.Valid() {
-		return Key{}, 0, false
+		return best, 0, false
 	}
-	var best Key
 	bestD := -1
 	var walk func(d int)
 	n := t.Len()
@@ -364,7 +452,7 @@ func maxDepthAllowed(beta, P int) int {
 }
 
 // after is the oracle run after every single operation on in.
-func (r *treeRun) after(in *inst, full bool) string {
+func (r *treeRun[T]) after(in *inst[T], full bool) string {
 	t, m := in.t, in.m
 	n := len(m.ks)
 	if n == 0 {
@@ -382,10 +470,10 @@ func (r *treeRun) after(in *inst, full bool) string {
 		return r.errf("IsEmpty = %v with reference size %d", got, n)
 	}
 	if r.md.model {
-		if got, want := t.Min(), m.min(); got != want {
+		if got, want := r.key(t.Min()), m.min(); got != want {
 			return r.errf("Min = %+v, want %+v", got, want)
 		}
-		if got, want := t.Max(), m.max(); got != want {
+		if got, want := r.key(t.Max()), m.max(); got != want {
 			return r.errf("Max = %+v, want %+v", got, want)
 		}
 		if full || n <= 64 || (r.step+r.sub)%8 == 0 {
@@ -399,7 +487,7 @@ func (r *treeRun) after(in *inst, full bool) string {
 		// 16th element; in between only the depth of the key just inserted is
 		// measured (comparisons of a successful lookup = depth + 1)
 		r.cmps = 0
-		if _, ok := t.Get(Key{K: *r.cheapKey}); ok && n > 0 {
+		if _, ok := t.Get(r.mk(Key{K: *r.cheapKey})); ok && n > 0 {
 			if d := r.cmps - 1; !withinBound(d, r.c.Beta, in.peak) {
 				return r.errf("key %s lies at depth %d, but log_{2000/%d}(P=%d)+1 allows at most %d (Len %d)", kstr(*r.cheapKey), d, 1000+r.c.Beta, in.peak, maxDepthAllowed(r.c.Beta, in.peak), n)
 			}
@@ -423,9 +511,9 @@ func (r *treeRun) after(in *inst, full bool) string {
 	return ""
 }
 
-func (r *treeRun) checkContents(in *inst) string {
+func (r *treeRun[T]) checkContents(in *inst[T]) string {
 	var got []Key
-	in.t.Inorder(func(k Key) bool { got = append(got, k); return true })
+	in.t.Inorder(func(x T) bool { got = append(got, r.key(x)); return true })
 	if len(got) != len(in.m.ks) {
 		return r.errf("Inorder lists %d keys, reference has %d: got %v want %v", len(got), len(in.m.ks), brief(got), brief(in.m.ks))
 	}
@@ -446,18 +534,20 @@ func brief(ks []Key) string {
 
 // checkGet looks k up and compares with the reference, and (C02) counts
 // comparisons.
-func (r *treeRun) checkGet(in *inst, k int64) string {
+func (r *treeRun[T]) checkGet(in *inst[T], k int64) string {
 	i, present := in.m.find(k)
+	probe := r.mk(Key{K: k, Tag: 1 << 30})
 	r.cmps = 0
-	got, ok := in.t.Get(Key{K: k, Tag: 1 << 30})
+	gotX, ok := in.t.Get(probe)
 	used := r.cmps
+	got := r.key(gotX)
 	if ok != present {
 		return r.errf("Get(%d) ok = %v, reference says %v", k, ok, present)
 	}
 	if present && got != in.m.ks[i] {
 		return r.errf("Get(%d) = %+v, reference holds %+v", k, got, in.m.ks[i])
 	}
-	if !present && got != (Key{}) {
+	if !present && (got != (Key{}) || !r.isZero(gotX)) {
 		return r.errf("Get(%d) of an absent key returned %+v, want the zero key", k, got)
 	}
 	if r.md.depth && r.c.Beta < 1000 && len(in.m.ks) > 0 {
@@ -470,7 +560,7 @@ func (r *treeRun) checkGet(in *inst, k int64) string {
 }
 
 // ith returns the key number of the (i mod Len)-th smallest key.
-func (in *inst) ith(i int) (int64, bool) {
+func (in *inst[T]) ith(i int) (int64, bool) {
 	if len(in.m.ks) == 0 {
 		return 0, false
 	}
@@ -482,7 +572,7 @@ func (in *inst) ith(i int) (int64, bool) {
 
 // absentNear returns a key number that is not in the set, chosen by sel:
 // between two neighbours, below the minimum or above the maximum.
-func (in *inst) absentNear(sel int) int64 {
+func (in *inst[T]) absentNear(sel int) int64 {
 	n := len(in.m.ks)
 	if n == 0 {
 		return baseKey(sel%7) + 5
@@ -501,16 +591,20 @@ func (in *inst) absentNear(sel int) int64 {
 	return k
 }
 
-func (r *treeRun) doAdd(in *inst, k int64, replace bool) string {
-	key := Key{K: k, Tag: r.nextTag()}
+func (r *treeRun[T]) doAdd(in *inst[T], k int64, replace bool) string {
+	key := r.ref(k, r.nextTag())
 	want := in.m.add(key, replace)
 	var got bool
 	name := "Add"
+	// For the "ptr" and "any" kinds x is a new cell: when k is present, its
+	// pointee is deeply equal to the stored element's and only the pointer
+	// (and the identity recorded for it) differs.
+	x := r.mk(key)
 	if replace {
 		name = "Replace"
-		got = in.t.Replace(key)
+		got = in.t.Replace(x)
 	} else {
-		got = in.t.Add(key)
+		got = in.t.Add(x)
 	}
 	if got != want {
 		return r.errf("%s(%d) = %v, reference says %v", name, k, got, want)
@@ -522,15 +616,21 @@ func (r *treeRun) doAdd(in *inst, k int64, replace bool) string {
 		return msg
 	}
 	if r.md.model {
+		if r.kit.Kind != "" && r.kit.HasID && (want || replace) {
+			// the element supplied by a successful Add or by the latest Replace is the one held
+			if g, ok := in.t.Get(r.mk(Key{K: k, Tag: 1 << 30})); !ok || !r.kit.Same(g, x) {
+				return r.errf("%s(%d): Get afterwards returns %+v (ok=%v), which is not the element just supplied (%+v)", name, k, r.key(g), ok, key)
+			}
+		}
 		return r.checkGet(in, k)
 	}
 	return ""
 }
 
-func (r *treeRun) doRemove(in *inst, k int64) string {
+func (r *treeRun[T]) doRemove(in *inst[T], k int64) string {
 	peakBefore := in.peak
 	want := in.m.remove(k)
-	got := in.t.Remove(Key{K: k, Tag: -999})
+	got := in.t.Remove(r.mk(Key{K: k, Tag: -999}))
 	if got != want {
 		return r.errf("Remove(%d) = %v, reference says %v", k, got, want)
 	}
@@ -549,11 +649,11 @@ func (r *treeRun) doRemove(in *inst, k int64) string {
 }
 
 // checkInorderStop verifies that iteration stops after exactly j callbacks.
-func (r *treeRun) checkInorderStop(in *inst, j int) string {
+func (r *treeRun[T]) checkInorderStop(in *inst[T], j int) string {
 	n := len(in.m.ks)
 	if n == 0 {
 		calls := 0
-		in.t.Inorder(func(Key) bool { calls++; return true })
+		in.t.Inorder(func(T) bool { calls++; return true })
 		if calls != 0 {
 			return r.errf("Inorder on an empty tree made %d callbacks", calls)
 		}
@@ -561,7 +661,7 @@ func (r *treeRun) checkInorderStop(in *inst, j int) string {
 	}
 	j = j%n + 1
 	var got []Key
-	in.t.Inorder(func(k Key) bool { got = append(got, k); return len(got) < j })
+	in.t.Inorder(func(x T) bool { got = append(got, r.key(x)); return len(got) < j })
 	if len(got) != j {
 		return r.errf("Inorder stopped after %d callbacks, want exactly %d (callback returned false at %d)", len(got), j, j)
 	}
@@ -574,12 +674,12 @@ func (r *treeRun) checkInorderStop(in *inst, j int) string {
 }
 
 // checkAfter verifies InorderAfter(k), complete and stopped after j.
-func (r *treeRun) checkAfter(in *inst, k int64, j int) string {
+func (r *treeRun[T]) checkAfter(in *inst[T], k int64, j int) string {
 	i, _ := in.m.find(k)
 	want := in.m.ks[i:]
 	var got []Key
-	for x := range in.t.InorderAfter(Key{K: k, Tag: -5}) {
-		got = append(got, x)
+	for x := range in.t.InorderAfter(r.mk(Key{K: k, Tag: -5})) {
+		got = append(got, r.key(x))
 	}
 	if len(got) != len(want) {
 		return r.errf("InorderAfter(%d) lists %d keys, reference %d: got %v want %v", k, len(got), len(want), brief(got), brief(want))
@@ -592,7 +692,7 @@ func (r *treeRun) checkAfter(in *inst, k int64, j int) string {
 	if len(want) > 0 {
 		j = j%len(want) + 1
 		calls := 0
-		for range in.t.InorderAfter(Key{K: k}) {
+		for range in.t.InorderAfter(r.mk(Key{K: k})) {
 			calls++
 			if calls == j {
 				break
@@ -603,7 +703,7 @@ func (r *treeRun) checkAfter(in *inst, k int64, j int) string {
 		}
 		// the raw callback form must also stop exactly
 		calls = 0
-		in.t.InorderAfter(Key{K: k})(func(Key) bool { calls++; return calls < j })
+		in.t.InorderAfter(r.mk(Key{K: k}))(func(T) bool { calls++; return calls < j })
 		if calls != j {
 			return r.errf("InorderAfter(%d): %d callbacks after the callback returned false at %d", k, calls, j)
 		}
@@ -612,28 +712,28 @@ func (r *treeRun) checkAfter(in *inst, k int64, j int) string {
 }
 
 // probeCursor checks a cursor obtained by key against the reference order.
-func (r *treeRun) probeCursor(in *inst, k int64, sel int) string {
+func (r *treeRun[T]) probeCursor(in *inst[T], k int64, sel int) string {
 	i, present := in.m.find(k)
-	c := in.t.Cursor(Key{K: k, Tag: -3})
+	c := in.t.Cursor(r.mk(Key{K: k, Tag: -3}))
 	if c.Valid() != present {
 		return r.errf("Cursor(%s).Valid() = %v, reference says present = %v", kstr(k), c.Valid(), present)
 	}
 	if !present {
-		if c.Key() != (Key{}) {
-			return r.errf("Cursor(%s) of an absent key has Key() = %v", kstr(k), c.Key())
+		if !r.isZero(c.Key()) {
+			return r.errf("Cursor(%s) of an absent key has Key() = %v", kstr(k), r.key(c.Key()))
 		}
 		return ""
 	}
 	ks := in.m.ks
-	if c.Key() != ks[i] {
-		return r.errf("Cursor(%s).Key() = %v, reference holds %v", kstr(k), c.Key(), ks[i])
+	if r.key(c.Key()) != ks[i] {
+		return r.errf("Cursor(%s).Key() = %v, reference holds %v", kstr(k), r.key(c.Key()), ks[i])
 	}
 	if c.HasNext() != (i+1 < len(ks)) || c.HasPrev() != (i > 0) {
 		return r.errf("Cursor(%s): HasNext/HasPrev = %v/%v at rank %d of %d", kstr(k), c.HasNext(), c.HasPrev(), i, len(ks))
 	}
 	// the subtree below the cursor is a contiguous ascending window containing k
 	var win []Key
-	c.Inorder(func(x Key) bool { win = append(win, x); return true })
+	c.Inorder(func(x T) bool { win = append(win, r.key(x)); return true })
 	lo := -1
 	for j, x := range win {
 		if x == ks[i] {
@@ -648,7 +748,7 @@ func (r *treeRun) probeCursor(in *inst, k int64, sel int) string {
 			return r.errf("Cursor(%s).Inorder[%d] = %v, the set has %v there", kstr(k), j, x, ks[lo+j])
 		}
 	}
-	if got := c.Clone().Min().Key(); got != ks[lo] {
+	if got := r.key(c.Clone().Min().Key()); got != ks[lo] {
 		return r.errf("Cursor(%s).Min() = %v, subtree minimum is %v", kstr(k), got, ks[lo])
 	}
 	// walk a few steps in one direction
@@ -664,22 +764,22 @@ func (r *treeRun) probeCursor(in *inst, k int64, sel int) string {
 		}
 		if j < 0 || j >= len(ks) {
 			if w.Valid() {
-				return r.errf("cursor from %s is still valid at %v after walking off the end", kstr(k), w.Key())
+				return r.errf("cursor from %s is still valid at %v after walking off the end", kstr(k), r.key(w.Key()))
 			}
 			break
 		}
-		if !w.Valid() || w.Key() != ks[j] {
-			return r.errf("cursor from %s after %d steps (forward=%v) is at %v (valid=%v), reference has %v", kstr(k), s+1, sel%2 == 0, w.Key(), w.Valid(), ks[j])
+		if !w.Valid() || r.key(w.Key()) != ks[j] {
+			return r.errf("cursor from %s after %d steps (forward=%v) is at %v (valid=%v), reference has %v", kstr(k), s+1, sel%2 == 0, r.key(w.Key()), w.Valid(), ks[j])
 		}
 	}
-	if c.Key() != ks[i] {
-		return r.errf("moving a Clone moved the original cursor to %v", c.Key())
+	if r.key(c.Key()) != ks[i] {
+		return r.errf("moving a Clone moved the original cursor to %v", r.key(c.Key()))
 	}
 	return ""
 }
 
 // twoChildKeys lists (in order) the keys of nodes having both children.
-func twoChildKeys(t *stree.Tree[Key]) []int64 {
+func (r *treeRun[T]) twoChildKeys(t *stree.Tree[T]) []int64 {
 	var out []int64
 	c := t.Root()
 	if !c.Valid() {
@@ -696,7 +796,7 @@ func twoChildKeys(t *stree.Tree[Key]) []int64 {
 			c.Up()
 		}
 		if l && rr {
-			out = append(out, c.Key().K)
+			out = append(out, r.key(c.Key()).K)
 		}
 		if rr {
 			c.Right()
@@ -711,7 +811,7 @@ func twoChildKeys(t *stree.Tree[Key]) []int64 {
 const maxTreeSize = 2000
 
 // apply executes one op.
-func (r *treeRun) apply(op Op) string {
+func (r *treeRun[T]) apply(op Op) string {
 	in := r.cur()
 	r.sub = 0
 	switch op.Kind {
@@ -754,7 +854,7 @@ func (r *treeRun) apply(op Op) string {
 			return ""
 		}
 		r.clones++
-		cp := &inst{t: in.t.Clone(), m: in.m.clone(), peak: in.peak, hiWater: in.hiWater, smax: in.smax}
+		cp := &inst[T]{t: in.t.Clone(), m: in.m.clone(), peak: in.peak, hiWater: in.hiWater, smax: in.smax}
 		r.insts = append(r.insts, cp)
 		if msg := r.after(cp, true); msg != "" {
 			return msg
@@ -864,7 +964,7 @@ func (r *treeRun) apply(op Op) string {
 		return ""
 	case "rm2":
 		// remove a node with two children, then look its successor up
-		tk := twoChildKeys(in.t)
+		tk := r.twoChildKeys(in.t)
 		if len(tk) == 0 {
 			return ""
 		}
@@ -901,7 +1001,8 @@ func (r *treeRun) apply(op Op) string {
 		n := op.A%6 + 1
 		for i := 0; i < n && len(in.m.ks) < maxTreeSize; i++ {
 			r.sub = i
-			leaf, _, ok := deepestLeaf(in.t)
+			leafX, _, ok := deepestLeaf(in.t)
+			leaf := r.key(leafX)
 			if !ok {
 				if msg := r.doAdd(in, baseKey(op.B%48), false); msg != "" {
 					return msg
@@ -946,14 +1047,15 @@ func (r *treeRun) apply(op Op) string {
 		// remove the keys that do NOT lie on the path from the root to a deepest
 		// leaf (all of them, or every other one): the tree shrinks while its
 		// height stays what the peak size allowed, until a rebuild happens
-		leaf, _, ok := deepestLeaf(in.t)
+		leafX, _, ok := deepestLeaf(in.t)
 		if !ok {
 			return ""
 		}
+		leaf := r.key(leafX)
 		onPath := map[int64]bool{}
 		for c, d := in.t.Root(), 0; c.Valid(); d++ {
 			walkGuard(d, in.t.Len())
-			k := c.Key().K
+			k := r.key(c.Key()).K
 			onPath[k] = true
 			if leaf.K < k {
 				c.Left()
@@ -1000,9 +1102,47 @@ func (r *treeRun) apply(op Op) string {
 	return r.errf("VK-INFRA unknown op kind %q", op.Kind)
 }
 
-// runTree is the RunFunc for C01 and C02.
-func runTree(c TreeCase, md mode, o *vk.Obs) (*treeRun, string) {
-	r := &treeRun{c: c, md: md, o: o}
+// treeKinds lists the values of TreeCase.Elem besides "" (stree.New accepts
+// any element type together with a comparison function).
+var treeKinds = []string{elem.Int, elem.Str, elem.Wide, elem.Ptr, elem.Any, elem.Bytes}
+
+// runTree interprets c on a tree of the element type c.Elem names and returns
+// the run's measurements.
+func runTree(c TreeCase, md mode, o *vk.Obs) (*treeStats, string) {
+	switch c.Elem {
+	case "":
+		return treeStatsOf(runTreeOn(c, md, o, keyKit()))
+	case elem.Int:
+		return treeStatsOf(runTreeOn(c, md, o, elem.IntKit()))
+	case elem.Str:
+		return treeStatsOf(runTreeOn(c, md, o, elem.StrKit()))
+	case elem.Wide:
+		return treeStatsOf(runTreeOn(c, md, o, elem.WideKit()))
+	case elem.Ptr:
+		return treeStatsOf(runTreeOn(c, md, o, elem.PtrKit()))
+	case elem.Any:
+		return treeStatsOf(runTreeOn(c, md, o, elem.AnyKit()))
+	case elem.Bytes:
+		return treeStatsOf(runTreeOn(c, md, o, elem.BytesKit()))
+	}
+	return &treeStats{}, fmt.Sprintf("VK-INFRA unknown element kind %q", c.Elem)
+}
+
+func treeStatsOf[T any](r *treeRun[T], msg string) (*treeStats, string) { return &r.treeStats, msg }
+
+// classElem reports the element kind of a case for the distribution histogram.
+func classElem(o *vk.Obs, kind string, rev bool) {
+	if kind == "" {
+		kind = "default"
+	}
+	o.Class("elem=" + kind)
+	o.ClassIf(rev, "order_reverse_of_natural")
+}
+
+// runTreeOn is the interpreter behind C01, C02 and (for building the tree) C03.
+func runTreeOn[T any](c TreeCase, md mode, o *vk.Obs, kit elem.Kit[T]) (*treeRun[T], string) {
+	elem.ResetPtr()
+	r := &treeRun[T]{c: c, kit: kit, md: md, o: o}
 	if msg := r.start(); msg != "" {
 		return r, msg
 	}
